@@ -225,7 +225,7 @@ Fields(k) ==
           F("jumpIf",     <<"-", "toEnd", "fwd", "self", "badResult", "undefTarget", "emptyTarget">>),
           F("ns",         <<"-", "DEFAULT", "other">>),
           F("resilience", <<"-", "retry", "both", "dupName", "badKind", "noName", "null", "empty">>),
-          PadField(<<"urlname", "duration">>) >>
+          PadField(<<"urlname", "duration", "url">>) >>
     [] k = "GlobalFilter" ->
        << F("before", <<"-", "mock", "noflow", "flowOnly", "endOnly", "badfilter", "adaptor", "emptyobj", "null">>),
           F("after",  <<"-", "mock", "noflow", "flowOnly", "endOnly", "badfilter", "adaptor", "emptyobj", "null">>),
@@ -270,55 +270,56 @@ Fields(k) ==
 \* reports the formats it found per configuration and the driver holds them against this table).  Every kind
 \* has a name (urlname); a filter is driven inside a pipeline whose name and - for the Proxy - resilience
 \* definitions (durations) are there whatever the filter's fields say.
-Car(f, n, cs) == {<<f, n, x>> : x \in cs}
 AlwaysFmt(k) == IF k = "Proxy" THEN {"urlname", "duration"} ELSE {"urlname"}
-Carriers(k) ==
+Carriers(k, f, n, x) ==
+  LET Car(ff, nn, cs) == f = ff /\ n = nn /\ x \in cs IN
   CASE k = "Proxy" ->
          Car("url", "servers", {"one", "two", "dead", "hostname", "badurl"})
-    \cup Car("url", "candidate", {"hdr", "hdrAll", "regex", "badregex", "urls", "urlNoMatch", "urlNull", "nullhdr", "emptyhdr", "noHeaders",
+    \/   Car("url", "candidate", {"hdr", "hdrAll", "regex", "badregex", "urls", "urlNoMatch", "urlNull", "nullhdr", "emptyhdr", "noHeaders",
                                   "emptyobj", "ipHash", "ipHashRegexHdr", "random1000", "permil0", "permil1001", "headerHash",
                                   "headerHashNoKey", "bogus", "policyUpper", "urlsLowerMethod"})
-    \cup Car("url", "mirror", {"ok", "hdr", "dead", "nofilter", "withcache", "wrnd"})
-    \cup Car("duration", "timeout", {"50ms", "0s", "-1s", "1ns", "bogus"})
-    \cup Car("duration", "memoryCache", {"ok", "exp0", "expNeg", "badExp", "zeroBytes", "noMethods", "noCodes", "lowerMethods"})
-    \cup Car("httpmethod", "memoryCache", {"ok", "exp0", "expNeg", "badExp", "zeroBytes", "noCodes", "lowerMethods"})
-    \cup Car("httpmethod", "candidate", {"urls", "urlsLowerMethod"})
-    \cup Car("regexp", "candidate", {"regex", "badregex", "urls", "ipHashRegexHdr"})
-    \cup Car("base64", "mtls", {"garbage", "badb64", "partial"})
+    \/   Car("url", "mirror", {"ok", "hdr", "dead", "nofilter", "withcache", "wrnd"})
+    \/   Car("duration", "timeout", {"50ms", "0s", "-1s", "1ns", "bogus"})
+    \/   Car("duration", "memoryCache", {"ok", "exp0", "expNeg", "badExp", "zeroBytes", "noMethods", "noCodes", "lowerMethods"})
+    \/   Car("httpmethod", "memoryCache", {"ok", "exp0", "expNeg", "badExp", "zeroBytes", "noCodes", "lowerMethods"})
+    \/   Car("httpmethod", "candidate", {"urls", "urlsLowerMethod"})
+    \/   Car("regexp", "candidate", {"regex", "badregex", "urls", "ipHashRegexHdr"})
+    \/   Car("base64", "mtls", {"garbage", "badb64", "partial"})
+    \/   Car("duration", "retry", {"r1", "rwait"}) \/ Car("duration", "cb", {"cb1"})    \* (use a definition that has durations)
     [] k = "Validator" ->
-         Car("regexp", "headers", {"regexp", "badre"}) \cup Car("duration", "sig", {"ttl", "badTTL"})
+         Car("regexp", "headers", {"regexp", "badre"}) \/   Car("duration", "sig", {"ttl", "badTTL"})
     [] k = "RateLimiter" ->
          Car("duration", "refresh", {"10ms", "0s", "-1s", "1h", "1ns", "bogus"})
-    \cup Car("duration", "timeout", {"5ms", "0s", "-1s", "1h"})
-    \cup Car("regexp", "urls", {"regex", "badregex"})
-    \cup Car("httpmethod", "urls", {"methods", "badMethod", "lowerMethod"})
+    \/   Car("duration", "timeout", {"5ms", "0s", "-1s", "1h"})
+    \/   Car("regexp", "urls", {"regex", "badregex"})
+    \/   Car("httpmethod", "urls", {"methods", "badMethod", "lowerMethod"})
     [] k = "RequestAdaptor" ->
-         Car("httpmethod", "method", {"POST", "FETCH", "post"}) \cup Car("regexp", "path", {"regexp", "badregexp", "all"})
+         Car("httpmethod", "method", {"POST", "FETCH", "post"}) \/   Car("regexp", "path", {"regexp", "badregexp", "all"})
     [] k = "Mock" ->
-         Car("duration", "delay", {"1ms", "0s", "-1s", "bogus"}) \cup Car("regexp", "matchHeaders", {"regex", "badregex"})
+         Car("duration", "delay", {"1ms", "0s", "-1s", "bogus"}) \/   Car("regexp", "matchHeaders", {"regex", "badregex"})
     [] k = "CORSAdaptor" -> Car("httpmethod", "methods", {"GET", "bogus", "dup", "lower"})
     [] k = "MeshAdaptor" -> Car("regexp", "filter", {"regex"})
     [] k = "Retry" -> Car("duration", "waitDuration", {"1ms", "0s", "-1ms", "bogus"})
     [] k = "CircuitBreaker" ->
-         Car("duration", "slowDur", {"0s", "1ns", "bogus"}) \cup Car("duration", "maxWait", {"0s", "1ms", "-1s"})
-    \cup Car("duration", "waitOpen", {"2ms", "0s", "-1s"})
+         Car("duration", "slowDur", {"0s", "1ns", "bogus"}) \/   Car("duration", "maxWait", {"0s", "1ms", "-1s"})
+    \/   Car("duration", "waitOpen", {"2ms", "0s", "-1s"})
     [] k = "Pipeline" ->
-         Car("duration", "resilience", {"retry", "both", "dupName"})
+         Car("duration", "resilience", {"retry", "both", "dupName"}) \/ Car("url", "filters", {"proxy", "builder"})
     [] k = "GlobalFilter" ->
-         Car("httpmethod", "before", {"adaptor"}) \cup Car("httpmethod", "after", {"adaptor"})
+         Car("httpmethod", "before", {"adaptor"}) \/   Car("httpmethod", "after", {"adaptor"})
     [] k = "HTTPServer" ->
          Car("duration", "keepAliveTimeout", {"1s", "0s", "-1s", "bogus"})
-    \cup Car("regexp", "host", {"regexp", "badregexp", "both"})
-    \cup Car("regexp", "path", {"regexp", "badregexp", "rewriteRegexp", "rewriteMixed"})
-    \cup Car("regexp", "headers", {"regexp", "all", "badregexp"})
-    \cup Car("httpmethod", "methods", {"GET", "bogus", "dup", "lower"})
-    \cup Car("base64", "https", {"garbageCert", "caOnly"})
-    \cup Car("ipcidr", "ipFilter", {"allowLocal", "blockLocal", "both", "badcidr", "v4mapped", "dup"})
-    \cup Car("ipcidr", "ruleIPFilter", {"allowLocal", "blockLocal", "v4mapped"})
-    \cup Car("ipcidr", "pathIPFilter", {"allowLocal", "blockLocal"})
+    \/   Car("regexp", "host", {"regexp", "badregexp", "both"})
+    \/   Car("regexp", "path", {"regexp", "badregexp", "rewriteRegexp", "rewriteMixed"})
+    \/   Car("regexp", "headers", {"regexp", "all", "badregexp"})
+    \/   Car("httpmethod", "methods", {"GET", "bogus", "dup", "lower"})
+    \/   Car("base64", "https", {"garbageCert", "caOnly"})
+    \/   Car("ipcidr", "ipFilter", {"allowLocal", "blockLocal", "both", "badcidr", "v4mapped", "dup"})
+    \/   Car("ipcidr", "ruleIPFilter", {"allowLocal", "blockLocal", "v4mapped"})
+    \/   Car("ipcidr", "pathIPFilter", {"allowLocal", "blockLocal"})
     [] k = "RemoteFilter" ->
-         Car("uri", "spec", {"ok", "badURL", "badTimeout"}) \cup Car("duration", "spec", {"ok", "badTimeout"})
-    [] OTHER -> {}
+         Car("uri", "spec", {"ok", "badURL", "badTimeout"}) \/   Car("duration", "spec", {"ok", "badTimeout"})
+    [] OTHER -> FALSE
 
 Range(s)      == {s[i] : i \in DOMAIN s}
 NFields(k)    == Len(Fields(k))
@@ -334,14 +335,19 @@ InGrammar(k, c) == /\ DOMAIN c = FieldNames(k)
 Base(k)   == [n \in FieldNames(k) |-> BaseOf(k, n)]
 
 \* a configuration carries format f; a field off its base class carries it
-Carries(k, c, f)  == f \in AlwaysFmt(k) \/ \E n \in FieldNames(k) \ {"pad"} : <<f, n, c[n]>> \in Carriers(k)
-OffBaseCarrier(k, c, f) == \E n \in FieldNames(k) \ {"pad"} : c[n] # BaseOf(k, n) /\ <<f, n, c[n]>> \in Carriers(k)
+Carries(k, c, f)  == f \in AlwaysFmt(k) \/ \E n \in FieldNames(k) \ {"pad"} : Carriers(k, f, n, c[n])
+OffBaseCarrier(k, c, f) == \E n \in FieldNames(k) \ {"pad"} : c[n] # BaseOf(k, n) /\ Carriers(k, f, n, c[n])
+\* every field off its base class carries format f
+PureCarrier(k, c, f) == \A n \in FieldNames(k) \ {"pad"} : c[n] = BaseOf(k, n) \/ Carriers(k, f, n, c[n])
 \* a padded class exists only where there is a value to pad
-PadSound(k, c) == c.pad = "-" \/ Carries(k, c, PadFmtOf(c.pad))
+PadSound(k, c) == IF c.pad = "-" THEN TRUE ELSE Carries(k, c, PadFmtOf(c.pad))
+\* the padded configurations the generator enumerates: the padded variants of the base and of the configurations
+\* whose off-base fields all write a value of the format (the grammar as such - InGrammar - has every combination)
+PadPure(k, c) == IF c.pad = "-" THEN TRUE ELSE PureCarrier(k, c, PadFmtOf(c.pad))
 \* Distance from the base: the number of fields off their base class - where "field x has the padded variant
 \* of its class v" (x = v off base, pad = the format of v) is ONE deviation, like any other class of x.
 Dev(k, c) == Cardinality({n \in FieldNames(k) : c[n] # BaseOf(k, n)})
-               - (IF c.pad # "-" /\ OffBaseCarrier(k, c, PadFmtOf(c.pad)) THEN 1 ELSE 0)
+               - (IF c.pad = "-" THEN 0 ELSE IF OffBaseCarrier(k, c, PadFmtOf(c.pad)) THEN 1 ELSE 0)
 
 (***************************************************************************************************)
 (* Rules the repository states in its Validate() methods (pkg/filters/proxy: Spec.Validate,        *)
